@@ -42,6 +42,21 @@ static const scen_t scens[] = {
     { V_TLS12, KX_PSK, 0, 0, 0, 0, 0, "tls12-psk-write-behind-pending-output", 2 },
     { V_TLS11, KX_PSK, 0, 0, 0, 0, 0, "tls11-psk-write-behind-pending-output", 2 },
     { V_TLS12, KX_RSA, TLS_RSA_WITH_AES_128_GCM_SHA256, 0, 0, 0, 0, "tls12-rsa-gcm-write-behind-pending-output", 2 },
+    /* an application that says one thing and hangs up: the side whose handshake completes first writes one message and
+       closes at once, so the last handshake flight, an application record and the close_notify alert travel back to back
+       (one receive call in the reference run) */
+    { V_TLS12, KX_PSK, 0, 0, 0, 0, 0, "tls12-psk-say-and-close", 3 },
+    { V_TLS13, KX_13_PSK, 0, 0, 0, 0, 0, "tls13-psk-say-and-close", 3 },
+    { V_TLS12, KX_PSK, 0, 0, 1, 0, 0, "tls12-psk-resumed-say-and-close", 3 },
+    { V_TLS13, KX_13_RSA, 0, 0, 0, 0, 1, "tls13-rsa-tickets-say-and-close", 3 },
+    /* ... and one that hangs up without a word: the closure alert directly behind the last handshake flight */
+    { V_TLS12, KX_PSK, 0, 0, 0, 0, 0, "tls12-psk-close-at-once", 4 },
+    { V_TLS12, KX_ECDHE_RSA, 0, 0, 0, 0, 1, "tls12-ecdhe-tickets-close-at-once", 4 },
+    { V_TLS13, KX_13_PSK, 0, 0, 0, 0, 0, "tls13-psk-close-at-once", 4 },
+    /* a client that hangs up the moment it has written its second flight (before the handshake completes on its side) */
+    { V_TLS12, KX_PSK, 0, 0, 0, 0, 0, "tls12-psk-client-hangs-up-behind-its-finished", 5 },
+    { V_TLS12, KX_RSA, TLS_RSA_WITH_AES_128_GCM_SHA256, 1, 0, 0, 0, "tls12-rsa-gcm-clientauth-client-hangs-up-behind-its-finished", 5 },
+    { V_TLS13, KX_13_PSK, 0, 0, 0, 0, 0, "tls13-psk-client-hangs-up-behind-its-finished", 5 },
 };
 #define NSCEN ((int) (sizeof(scens) / sizeof(scens[0])))
 
@@ -60,6 +75,7 @@ typedef struct {
     uint64_t alerts_hash;
     uint64_t entropy_draws, entropy_bytes;
     int comp_at_first_delivery[2];
+    int next_hello_len;              /* length of the ClientHello of the NEXT connection made with the same sslSessionId_t: tells whether (and what) the client stored for resumption */
     int nflights[2], flight_off[2][64];
 } obs_t;
 static obs_t *refs; /* shared */
@@ -171,7 +187,7 @@ static int deliver_dir(world_t *w, run_t *R, int d, const sched_t *sc)
     return n;
 }
 
-static int pipeline_on, app_written[2];
+static int pipeline_on, app_written[2], say_and_close, closer, hangup_after_burst, bursts[2];
 static void app_messages(world_t *w, int d)
 {
     static unsigned char msg[40100];
@@ -199,11 +215,39 @@ static int quiesce(world_t *w, run_t *R, const sched_t *sc)
         progress = 0;
         for (d = 0; d < 2; d++)
         {
+            size_t before = R->out[d].len;
             collect_side(w, R, d, sc);
+            if (R->out[d].len > before)
+            {
+                bursts[d]++;
+            }
+            if (hangup_after_burst && d == 0 && bursts[0] == hangup_after_burst && closer < 0 && w->s[0].err_rc >= 0)
+            {
+                /* the client hangs up the moment its second flight is written: the closure alert directly behind it */
+                closer = 0;
+                world_close(w, 0);
+                collect_side(w, R, d, sc);
+            }
             if (pipeline_on && !app_written[d] && world_is_complete(w, d) && w->s[d].err_rc >= 0)
             {
                 app_written[d] = 1;
-                app_messages(w, d);
+                if (say_and_close)
+                {
+                    if (closer < 0)
+                    {
+                        static const unsigned char bye[3] = { 'b', 'y', 'e' };
+                        closer = d;
+                        if (say_and_close == 1)
+                        {
+                            world_app_send(w, d, bye, 3);
+                        }
+                        world_close(w, d);
+                    }
+                }
+                else
+                {
+                    app_messages(w, d);
+                }
                 collect_side(w, R, d, sc);
             }
             if ((int) R->out[d].len > R->fed[d])
@@ -252,7 +296,11 @@ static void run_scenario(int si, const sched_t *sc, obs_t *o)
         buf_clear(&R.out[0]); buf_clear(&R.out[1]);
         R.fed[0] = R.fed[1] = 0;
     }
-    pipeline_on = S->pipeline == 1;
+    pipeline_on = S->pipeline == 1 || S->pipeline >= 3;
+    say_and_close = S->pipeline == 3 ? 1 : S->pipeline == 4 ? 2 : 0;
+    closer = -1;
+    hangup_after_burst = S->pipeline == 5 ? 2 : 0;
+    bursts[0] = bursts[1] = 0;
     app_written[0] = app_written[1] = 0;
     if (S->pipeline == 2)
     {
@@ -294,7 +342,7 @@ static void run_scenario(int si, const sched_t *sc, obs_t *o)
             o->mid_dlen[d] = (int) w.s[d].delivered.len;
             o->mid_dhash[d] = fnv1a(w.s[d].delivered.p, w.s[d].delivered.len, FNV0);
         }
-        if (world_is_complete(&w, 0) && world_is_complete(&w, 1))
+        if (world_is_complete(&w, 0) && world_is_complete(&w, 1) && !say_and_close && !hangup_after_burst)
         {
             world_close(&w, 0);
             quiesce(&w, &R, sc);
@@ -302,6 +350,8 @@ static void run_scenario(int si, const sched_t *sc, obs_t *o)
         o->entropy_draws = env_entropy_draws - e0;
         o->entropy_bytes = env_entropy_bytes - b0;
         pipeline_on = 0;
+        say_and_close = 0;
+        hangup_after_burst = 0;
     }
     else
     {
@@ -363,6 +413,14 @@ static void run_scenario(int si, const sched_t *sc, obs_t *o)
             p = e ? e + 1 : NULL;
         }
         o->alerts_hash = h;
+    }
+    /* what the client stored for resumption, seen through the public API: the next connection's ClientHello */
+    world_free_sessions(&w);
+    if (world_new_sessions(&w) >= 0)
+    {
+        unsigned char *out;
+        int32 n = matrixSslGetOutdata(w.s[0].ssl, &out);
+        o->next_hello_len = n > 0 ? (int) n : -1;
     }
     o->ok = 1;
     buf_free(&R.out[0]); buf_free(&R.out[1]);
@@ -495,6 +553,10 @@ static void run_case(void *ctx, mx_result_t *r)
         {
             sym = "completion-vs-first-delivery-order-differs";
         }
+    }
+    if (!sym && o.next_hello_len != ref->next_hello_len)
+    {
+        sym = "session-stored-for-resumption-differs";
     }
     if (!sym && o.alerts_hash != ref->alerts_hash)
     {
